@@ -2,7 +2,7 @@
    Model/Effects.v: a program accepted by the static check `safe` leaves every object of the caller's heap
    untouched, for ALL initial heaps and ALL argument tuples (any aliasing between arguments included). *)
 From Coq Require Import List Arith ZArith Bool.
-From TLV Require Import Model.Effects Proofs.EffectsProofs Proofs.EffectsProofsSk Proofs.EffectsProofsGen Proofs.EffectsProofsPaths Proofs.EffectsProofsReach.
+From TLV Require Import Model.Effects Proofs.EffectsProofs Proofs.EffectsProofsSk Proofs.EffectsProofsGen Proofs.EffectsProofsPaths Proofs.EffectsProofsReach Proofs.EffectsProofsR5 Corr.C15.
 Import ListNotations.
 
 (* the frame theorem *)
@@ -68,20 +68,20 @@ Theorem C15_tucker_user_init_mask : forall (args : list ref) (h0 : heap) (o : na
 Proof. exact tucker_frame. Qed.
 Print Assumptions C15_tucker_user_init_mask.
 
-Theorem C15_initialize_cp_safe : safe 2 sk_initialize_cp_user = true. Proof. exact initialize_cp_safe. Qed.
-Theorem C15_initialize_tucker_safe : safe 2 sk_initialize_tucker = true. Proof. exact initialize_tucker_safe. Qed.
-Theorem C15_cp_flip_sign_safe : safe 1 sk_cp_flip_sign = true. Proof. exact cp_flip_sign_safe. Qed.
-Theorem C15_cp_permute_factors_safe : safe 2 sk_cp_permute_factors = true. Proof. exact cp_permute_factors_safe. Qed.
-Theorem C15_fixed_modes_safe : safe 1 (sk_fixed_modes 0) = true. Proof. exact fixed_modes_safe. Qed.
-Theorem C15_sparsity_coefficients_safe : safe 2 (sk_sparsity 0 1) = true. Proof. exact sparsity_safe. Qed.
-Theorem C15_masked_update_safe : safe 2 (sk_masked_update 0 1) = true. Proof. exact masked_update_safe. Qed.
-Theorem C15_khatri_rao_mask_safe : safe 2 sk_khatri_rao_mask = true. Proof. exact khatri_rao_mask_safe. Qed.
-Theorem C15_active_set_nnls_warm_start_safe : safe 3 sk_active_set_nnls = true. Proof. exact active_set_nnls_safe. Qed.
-Theorem C15_cp_mode_dot_copy_safe : safe 2 sk_cp_mode_dot_copy = true. Proof. exact cp_mode_dot_copy_safe. Qed.
-Theorem C15_parafac2_to_slices_safe : safe 1 sk_parafac2_to_slices = true. Proof. exact parafac2_to_slices_safe. Qed.
-Theorem C15_cp_plsr_fit_safe : safe 2 sk_cp_plsr_fit = true. Proof. exact cp_plsr_fit_safe. Qed.
-Print Assumptions C15_initialize_cp_safe.
-Print Assumptions C15_cp_plsr_fit_safe.
+(* the same, skeleton by skeleton (initialize_cp / initialize_tucker user init, cp_flip_sign, cp_permute_factors, fixed_modes and
+   sparsity_coefficients handling, masked update, einsum khatri_rao with mask, active_set_nnls warm start, cp_mode_dot copy=True,
+   parafac2_to_slices, CP_PLSR.fit) *)
+Theorem C15_modelled_entry_points_safe_each :
+  safe 2 sk_initialize_cp_user = true /\ safe 2 sk_initialize_tucker = true /\ safe 1 sk_cp_flip_sign = true /\
+  safe 2 sk_cp_permute_factors = true /\ safe 1 (sk_fixed_modes 0) = true /\ safe 2 (sk_sparsity 0 1) = true /\
+  safe 2 (sk_masked_update 0 1) = true /\ safe 2 sk_khatri_rao_mask = true /\ safe 3 sk_active_set_nnls = true /\
+  safe 2 sk_cp_mode_dot_copy = true /\ safe 1 sk_parafac2_to_slices = true /\ safe 2 sk_cp_plsr_fit = true.
+Proof.
+  exact (conj initialize_cp_safe (conj initialize_tucker_safe (conj cp_flip_sign_safe (conj cp_permute_factors_safe
+        (conj fixed_modes_safe (conj sparsity_safe (conj masked_update_safe (conj khatri_rao_mask_safe (conj active_set_nnls_safe
+        (conj cp_mode_dot_copy_safe (conj parafac2_to_slices_safe cp_plsr_fit_safe))))))))))).
+Qed.
+Print Assumptions C15_modelled_entry_points_safe_each.
 
 (* hals_nnls: V is the documented in-place start matrix; cp_mode_dot(copy=False) works on the caller's CP tensor *)
 Theorem C15_hals_nnls_inplace_V :
@@ -308,3 +308,116 @@ Example C15_hals_nnls_nonvacuous :
   closed_heap nnls_heap /\ closed_args nnls_heap (inplace_roots nnls_args) /\ map snd nnls_args = [false; false; true] /\
   footprint sk_hals_nnls (map fst nnls_args) nnls_heap = [2] /\ ~ reach nnls_heap (inplace_roots nnls_args) 0.
 Proof. exact hals_nnls_nonvacuous. Qed.
+
+(* ================================================================== round 5 *)
+(* ------------------------------------------------------------------ the remaining documented in-place parameters:
+   tucker_mode_dot(copy=False) pops from / assigns into the caller's factor list, index_update assigns into its first
+   argument; unsafe without the flag, safe with it, and then nothing outside the flagged argument's region changes.
+   tucker_mode_dot(copy=True) is safe with every argument protected. *)
+Theorem C15_tucker_mode_dot_index_update_inplace :
+  safe 2 sk_tucker_mode_dot_copy = true /\
+  (safe 2 sk_tucker_mode_dot_vec_nocopy = false /\ safe_with [true; false] sk_tucker_mode_dot_vec_nocopy = true /\
+   safe 2 sk_tucker_mode_dot_matrix_nocopy = false /\ safe_with [true; false] sk_tucker_mode_dot_matrix_nocopy = true) /\
+  (safe 2 sk_index_update = false /\ safe_with [true; false] sk_index_update = true).
+Proof. exact (conj tucker_mode_dot_copy_safe (conj tucker_mode_dot_inplace index_update_inplace)). Qed.
+Print Assumptions C15_tucker_mode_dot_index_update_inplace.
+
+Theorem C15_tucker_mode_dot_index_update_frame : forall (args : list (ref * bool)) (h0 : heap), map snd args = [true; false] ->
+  closed_heap h0 -> closed_args h0 (inplace_roots args) ->
+  forall o, o < length h0 -> ~ reach h0 (inplace_roots args) o ->
+  nth_error (snd (exec sk_tucker_mode_dot_vec_nocopy (env0 (map fst args), h0))) o = nth_error h0 o /\
+  nth_error (snd (exec sk_tucker_mode_dot_matrix_nocopy (env0 (map fst args), h0))) o = nth_error h0 o /\
+  nth_error (snd (exec sk_index_update (env0 (map fst args), h0))) o = nth_error h0 o.
+Proof.
+  intros args h0 Hf Hc Ha o Ho Hr.
+  exact (conj (tucker_mode_dot_vec_frame args h0 Hf Hc Ha o Ho Hr) (conj (tucker_mode_dot_mat_frame args h0 Hf Hc Ha o Ho Hr)
+              (index_update_frame args h0 Hf Hc Ha o Ho Hr))).
+Qed.
+Print Assumptions C15_tucker_mode_dot_index_update_frame.
+
+Example C15_tucker_mode_dot_index_update_nonvacuous :
+  footprint sk_tucker_mode_dot_vec_nocopy (map fst tk_args) tk_heap = [4] /\
+  footprint sk_tucker_mode_dot_matrix_nocopy (map fst tk_args) tk_heap = [4] /\
+  footprint sk_tucker_mode_dot_copy (map fst tk_args) tk_heap = [] /\
+  footprint sk_index_update [RObj 0 [1; 3]; RObj 6 [0; 1]] tk_heap = [0].
+Proof. exact tucker_mode_dot_nonvacuous. Qed.
+
+(* ------------------------------------------------------------------ sequences of calls (fit, predict, a second fit with the same
+   options ...): every call is a safe program receiving ARBITRARY references into the heap as it is then (results of
+   earlier calls included).  Nothing of the caller's heap changes over the whole sequence; nothing that exists when the
+   remaining calls start is changed by them; also when the last call raises after n primitive effects. *)
+Theorem C15_frame_sequence : forall (cs : list (cmd * list ref)) (h0 : heap),
+  Forall (fun p => safe (length (snd p)) (fst p) = true) cs ->
+  forall o, o < length h0 -> nth_error (exec_calls cs h0) o = nth_error h0 o.
+Proof. exact frame_sequence. Qed.
+Print Assumptions C15_frame_sequence.
+
+Theorem C15_frame_sequence_results : forall (cs1 cs2 : list (cmd * list ref)) (h0 : heap),
+  Forall (fun p => safe (length (snd p)) (fst p) = true) cs2 ->
+  forall o, o < length (exec_calls cs1 h0) ->
+  nth_error (exec_calls (cs1 ++ cs2) h0) o = nth_error (exec_calls cs1 h0) o.
+Proof. exact frame_sequence_results. Qed.
+Print Assumptions C15_frame_sequence_results.
+
+Theorem C15_frame_sequence_raise : forall (cs : list (cmd * list ref)) (c : cmd) (args : list ref) (h0 : heap),
+  Forall (fun p => safe (length (snd p)) (fst p) = true) cs -> safe (length args) c = true ->
+  forall n o, o < length h0 ->
+  nth_error (snd (fst (run c n (env0 args, exec_calls cs h0)))) o = nth_error h0 o.
+Proof. exact frame_sequence_raise. Qed.
+Print Assumptions C15_frame_sequence_raise.
+
+Example C15_frame_sequence_nonvacuous :
+  Forall (fun p => safe (length (snd p)) (fst p) = true) demo_calls /\
+  length demo_heap = 9 /\ 9 < length (exec_calls demo_calls demo_heap) /\
+  firstn 9 (exec_calls demo_calls demo_heap) = demo_heap.
+Proof. exact frame_sequence_nonvacuous. Qed.
+
+(* ------------------------------------------------------------------ estimator classes: est.fit_transform(tensor), self = the
+   estimator holding the user's options (init, fixed_modes, mask / sparsity_coefficients) as attributes.  For ANY
+   decomposition body accepted by `safe`, of the caller's heap ONLY the receiver object changes (decomposition_ is
+   stored on it); instances for the three order-generic families (every order, sweep count, list length, mode order). *)
+Theorem C15_estimator_fit_frame : forall (nattr : nat) (body : cmd) (ret : var), nattr = 2 \/ nattr = 3 ->
+  safe (S nattr) body = true ->
+  forall (self X : ref) (h0 : heap) (o : nat), o < length h0 -> target self <> Some o ->
+  nth_error (snd (exec (sk_estimator_fit nattr body ret) (env0 [self; X], h0))) o = nth_error h0 o.
+Proof. exact estimator_fit_frame. Qed.
+Print Assumptions C15_estimator_fit_frame.
+
+Theorem C15_cp_hals_tucker_class_fit_frame : forall (self X : ref) (h0 : heap) (o : nat), o < length h0 -> target self <> Some o ->
+  (forall N sweeps fmlen rm modes,
+     nth_error (snd (exec (sk_estimator_fit 3 (sk_parafac_gen N sweeps fmlen rm modes) 25) (env0 [self; X], h0))) o = nth_error h0 o) /\
+  (forall N sweeps sclen fmlen fixed modes,
+     nth_error (snd (exec (sk_estimator_fit 3 (sk_nn_parafac_hals_gen N sweeps sclen fmlen fixed modes) 25) (env0 [self; X], h0))) o = nth_error h0 o) /\
+  (forall N sweeps modes,
+     nth_error (snd (exec (sk_estimator_fit 2 (sk_tucker_gen N sweeps modes) 25) (env0 [self; X], h0))) o = nth_error h0 o).
+Proof.
+  intros self X h0 o Ho Ht. split; [|split]; intros.
+  - apply cp_class_fit_frame; auto.
+  - apply hals_class_fit_frame; auto.
+  - apply tucker_class_fit_frame; auto.
+Qed.
+Print Assumptions C15_cp_hals_tucker_class_fit_frame.
+
+Example C15_estimator_fit_nonvacuous :
+  footprint (sk_estimator_fit 3 (sk_parafac_gen 3 2 2 (Some 1) [0; 1; 2]) 25) [RObj 9 []; RObj 0 [0; 1; 2; 3]] est_heap = [9].
+Proof. exact estimator_fit_nonvacuous. Qed.
+
+(* ------------------------------------------------------------------ interrupted calls in the correspondence: Corr.C15.agree compares
+   the observed footprint of a call that raised with the footprints of the interruption points 0..steps of the skeleton.
+   That enumeration is complete (every n is represented), its last point is the completed call, and for an accepted
+   skeleton all of its members are empty. *)
+Theorem C15_interrupt_enumeration_complete : forall c args h,
+  (forall n, In (footprint_run c n args h) (interrupted_footprints c args h)) /\
+  footprint_run c (steps c) args h = footprint c args h.
+Proof. intros c args h. split; [intros n; apply interrupt_enumeration_complete|apply interrupt_last_is_exec]. Qed.
+Print Assumptions C15_interrupt_enumeration_complete.
+
+Theorem C15_interrupted_footprints_safe : forall c args h, safe (length args) c = true ->
+  forall f, In f (interrupted_footprints c args h) -> f = [].
+Proof. exact interrupted_footprints_safe. Qed.
+Print Assumptions C15_interrupted_footprints_safe.
+
+Example C15_interrupt_nonvacuous :
+  interrupted_footprints sk_hals_nnls (map fst nnls_args) nnls_heap = [[]; []; [2]; [2]; [2]; [2]; [2]; [2]; [2]; [2]; [2]] /\
+  steps sk_hals_nnls = 10.
+Proof. exact interrupt_nonvacuous. Qed.
